@@ -195,8 +195,7 @@ static void spec_line(const char *p, struct spec *s)
      * DELIM " "): unspecified */
     if (!sep_has_delim) return;
     s->has_val = (i < n);
-    if (i == n) {                       /* key + trailing blanks: no value */
-      if (CTX_LAST_ENTRY) return;       /* directly after an entry this is a continuation by design */
+    if (i == n) {                       /* key + trailing blanks: no value (a delimiter byte was seen: no continuation) */
       s->kind = L_ENTRY;
       return;
     }
